@@ -70,6 +70,8 @@ pub enum Cd {
     Burn(u16),
     /// returns NUMBER, BLOCKHASH(NUMBER-1), CHAINID
     BlockInfo,
+    /// ABI call data for the Bitcoin transaction-details helper (0xfd) about a fixed transaction
+    BtcDetails,
     Probe(Vec<u16>),
     /// controller-level call (ticker is the first argument)
     Ctl { ticker: u8, call: Erc },
@@ -150,6 +152,8 @@ pub enum ReadOp {
     EstimateGasMany { calls: Vec<(Who, Option<Target>, Cd)> },
     Balance { who: Who, ticker: u8 },
     Getters,
+    /// eth_callMany to the Bitcoin transaction-details helper with raw-transaction overrides for it and its parent
+    BtcOverrides,
     /// an executing read with an explicit block parameter (tag, past / future height, garbage)
     AtBlock { sel: BlockSel, read: Box<ReadOp> },
 }
